@@ -11,4 +11,4 @@ for d in sorted(glob.glob('/verif/seeded/*/')):
     name = os.path.basename(d.rstrip('/'))
     lines = m.get('first_check_result', {}).get('lines') or []
     cls = next((l.strip() for l in lines if 'class=' in l), lines[0] if lines else '')
-    print(f"| {name} | {', '.join(re.sub(r'^/tmp/seed2?/C[0-9]+/', '', f) for f in (m.get('files') or []))} | {short(m.get('summary'), 230)} | {short(m.get('needs_to_manifest'), 170)} | {'+'.join(m.get('caught_by') or ['-'])}: `{short(cls, 150)}` |")
+    print(f"| {name} | {', '.join(re.sub(r'^/tmp/seed2?/C[0-9]+/', '', f) for f in (m.get('files') or []))} | {short(m.get('summary'), 200)} | {short(m.get('needs_to_manifest'), 120)} | {'+'.join(m.get('caught_by') or ['-'])}: `{short(cls, 150)}` |")
